@@ -53,6 +53,9 @@ INLINE_KEEP = {
 # Helpers that contain a loop are inlined as well, except in these units, whose rules summarise such helpers as
 # functions (C20: the range-walk helper of mlog_dump).
 KEEP_LOOP_HELPERS = {"librfn/mlog.c"}
+# units whose PUBLIC functions are also inlined into their callers inside the same unit (they stay defined as well): the
+# message queue's operations are analysed as wholes even when one is rebuilt on top of another (receive on top of a peek)
+INLINE_PUBLIC_CALLEES = {"librfn/messageq.c"}
 
 _workdir = None
 _lock = threading.Lock()
@@ -145,6 +148,14 @@ def compile_unit(path, config="default", extra=(), repo=None, mem2reg=True, inli
         rel = path[len(repo or REPO) + 1:] if path.startswith((repo or REPO) + "/") else path
         victims = sorted(f.name for f in m0.defined_functions()
                          if f.internal and f.name not in inline_except and (rel not in KEEP_LOOP_HELPERS or not f.loops_headers()))
+        if rel in INLINE_PUBLIC_CALLEES:
+            called = set(c.callee for f in m0.defined_functions() for c in f.calls() if isinstance(c.callee, str))
+            defined = {f.name: f for f in m0.defined_functions()}
+            for name in sorted(called & set(defined)):
+                f = defined[name]
+                if not f.internal and not f.loops_headers() and name not in [c.callee for c in f.calls()]:
+                    victims.append(name)
+            victims = sorted(set(victims))
         # (no early return when there is nothing to inline: the same function-level normalisation - jump threading of
         # short-circuit conditions - is applied to every unit, so that a unit is analysed in one form whether or not it
         # happens to contain a helper)
